@@ -96,6 +96,22 @@ func protect(fn func()) (pv any, stack string) {
 	return nil, ""
 }
 
+// stackOf extracts from a dump of all goroutines the one whose stack mentions marker.
+func stackOf(dump, marker string) string {
+	for _, g := range strings.Split(dump, "\n\n") {
+		if strings.Contains(g, marker) {
+			if len(g) > 3000 {
+				g = g[:3000]
+			}
+			return g
+		}
+	}
+	if len(dump) > 3000 {
+		dump = dump[:3000]
+	}
+	return dump
+}
+
 // stackHead keeps the frames between the panic and the harness.
 func stackHead(s string) string {
 	lines := strings.Split(s, "\n")
@@ -164,7 +180,20 @@ func guardN(t TB, target string, pk bool, inLenFn func() int, repro func() map[s
 	var m0, m1 runtime.MemStats
 	runtime.ReadMemStats(&m0)
 	t0 := time.Now()
-	pv, stack := protect(fn)
+	var pv any
+	var stack string
+	if fuzzing {
+		pv, stack = protect(fn)
+	} else if back, dump := evid.Watch(func() { pv, stack = protect(fn) }); !back {
+		// "returns a value or an error for every input ... running time bounded": the call is still out
+		// after evid.HangLimit (an endless loop, or blocked for good) - orders of magnitude beyond anything
+		// a starved machine could explain for an input of this size
+		r := repro()
+		r["replay"] = cur.describe()
+		r["target"] = target
+		r["goroutines"] = stackOf(dump, "c12.protect")
+		evid.Abort("hang-"+target, r, "%s did not return within %v on %d input bytes (endless loop or blocked for good)", target, evid.HangLimit, inLenFn())
+	}
 	dur := time.Since(t0)
 	runtime.ReadMemStats(&m1)
 	total := m1.TotalAlloc - m0.TotalAlloc
